@@ -1551,6 +1551,20 @@ class QBidirectional(Bidirectional):
   def activation(self):
     return self.layer.activation
 
+  def get_config(self):
+    config = super().get_config()
+    # Keras serializes the layer the wrapper was constructed with, but the
+    # layers in use are copies of it whose quantizers may have been updated
+    # since (e.g. qnoise_factor and use_ste by QNoiseScheduler).
+    layer_config = self.forward_layer.get_config()
+    layer_config["name"] = self.layer.name
+    config["layer"]["config"] = layer_config
+    if "backward_layer" in config:
+      backward_config = self.backward_layer.get_config()
+      backward_config["name"] = config["backward_layer"]["config"]["name"]
+      config["backward_layer"]["config"] = backward_config
+    return config
+
   def get_quantization_config(self):
     return {
       "layer" : self.layer.get_quantization_config(),
